@@ -770,7 +770,14 @@ def run_job(job, validate=False):
     rulebook are snapshotted around every call and the modified objects are listed under "modified"."""
     from annet import api
     from annet.annlib import patching
-    hw, rb, acl = _job_env(job)
+    try:
+        hw, rb, acl = _job_env(job)
+    except Exception as e:  # noqa  compiling the job's rulebook / ACL failed: that IS the job's result (it must fail alike
+        # in a fresh process and after any history)
+        res = {"diff_patch": _exc(e), "ordered": _exc(e), "env": _exc(e)}
+        if validate:
+            res["modified"] = []
+        return res
     old, new = rbgen.to_odict(job["old"]), rbgen.to_odict(job["new"])
     res = {}
     modified = []
@@ -824,7 +831,10 @@ def observed_writes(job):
     from annet import api
     from annet.annlib import patching
     from annet.annlib.types import Op
-    hw, rb, acl = _job_env(job)
+    try:
+        hw, rb, acl = _job_env(job)
+    except Exception:  # noqa  the failure itself is compared by run_job
+        return []
     old, new = rbgen.to_odict(job["old"]), rbgen.to_odict(job["new"])
     opn = {Op.ADDED: "Op.ADDED", Op.REMOVED: "Op.REMOVED", Op.MOVED: "Op.MOVED", Op.AFFECTED: "Op.AFFECTED",
            Op.UNCHANGED: "Op.UNCHANGED"}
@@ -991,6 +1001,17 @@ def acl_for(rng, trees):
     if not lines:
         lines = ["~"]
     return "\n".join(lines) + "\n"
+
+
+def share_acls(rng, jobs, p=0.5):
+    """a fleet served by one process shares ACL texts: the same text is compiled for devices of different vendors"""
+    with_acl = [j for j in jobs if j.get("acl")]
+    for j in jobs:
+        if with_acl and rng.random() < p:
+            donor = rng.choice(with_acl)
+            if donor is not j and donor["vendor"] != j["vendor"]:
+                j["acl"] = donor["acl"]
+    return jobs
 
 
 def gen_hist_job(rng, allow_gen=True):
@@ -1202,7 +1223,7 @@ def gen(desc):
         elif kind == "acl":
             yield gen_acl(rng)
         else:
-            jobs = [gen_hist_job(rng) for _ in range(rng.randint(3, 8))]
+            jobs = share_acls(rng, [gen_hist_job(rng) for _ in range(rng.randint(3, 8))])
             if rng.random() < 0.5:
                 jobs.append(copy.deepcopy(rng.choice(jobs)))          # a repeated job
             yield dict(kind="hist", jobs=jobs, fresh="fork")
@@ -1758,6 +1779,7 @@ def extra(tier, seed, ctx):
             j["acl"] = acl_for(rng, [j["old"], j["new"]])
     jobs += [gen_hist_job(rng) for _ in range(80 if tier == "quick" else 400)]
     rng.shuffle(jobs)
+    share_acls(rng, jobs, 0.3)
     nbase = 96 if tier == "quick" else 480
     picked = sorted(rng.sample(range(len(jobs)), min(nbase, len(jobs))))
     # the history: every job, one after the other, in one process of its own (a pool worker serving many devices)
